@@ -3,6 +3,7 @@ package main
 import (
 	"fmt"
 	"go/constant"
+	"go/token"
 	"go/types"
 	"sort"
 	"strings"
@@ -12,9 +13,9 @@ import (
 
 func init() {
 	register(&PropertyDef{
-		ID: "C19",
+		ID:          "C19",
 		Explanation: "Static evaluation of the port multiplexer's tables and hand-off. Decided: (1) R-PREFIX-TABLES - the RTSP prefix list (constant arguments of MatchPrefix in MatchRTSP) and the HTTP method list are evaluated from source: every RTSP method constant of the rtsp format package except OPTIONS is listed, OPTIONS appears in exactly the four qualified forms of the property ('OPTIONS * RTSP', 'OPTIONS * rtsp', 'OPTIONS rtsp://', 'OPTIONS RTSP://'), no RTSP entry is a prefix of an HTTP method (so no HTTP request line is captured by RTSP), and wherever an HTTP method is a prefix of an RTSP entry (OPTIONS, GET/GET_PARAMETER) the RTSP matcher is registered before the HTTP matcher in Service.listen; (2) R-ONE-SERVICE - in Listener.serve a connection is handed over by at most one channel send, only after doneSniffing, and every path that hands nothing over closes the connection; the sniff deadline is set before matching when a read timeout is configured and cleared only on the matched path; the listener's read timeout is set from configuration.",
-		NotDecided: "That sniffed bytes are replayed exactly once for every chunking (buffer arithmetic of sniffer.Read), patricia-tree matching correctness.",
+		NotDecided:  "That sniffed bytes are replayed exactly once for every chunking (buffer arithmetic of sniffer.Read), patricia-tree matching correctness.",
 		Rules: []*RuleDoc{
 			{Name: "R-PREFIX-TABLES", Text: "RTSP/HTTP prefix tables complete and conflict-free; registration order resolves overlaps.", Run: rulePrefixTables},
 			{Name: "R-ONE-SERVICE", Text: "At most one hand-off per connection after doneSniffing; unmatched connections are closed; deadline handling.", Run: ruleOneService},
@@ -43,6 +44,42 @@ func constStringArgs(call *ssa.Call, argIdx int) ([]string, bool) {
 	}
 	sl, ok := call.Call.Args[argIdx].(*ssa.Slice)
 	if !ok {
+		// the list may live in a package-level variable passed with `...`; it counts as constant only if
+		// nothing in the module stores into the variable or its elements after initialisation
+		if ld, isLd := call.Call.Args[argIdx].(*ssa.UnOp); isLd && ld.Op == token.MUL {
+			if g, isG := ld.X.(*ssa.Global); isG && theProgram != nil && g.Pkg != nil {
+				rel := strings.TrimPrefix(strings.TrimPrefix(g.Pkg.Pkg.Path(), modPath), "/")
+				writes := 0
+				for _, f := range theProgram.ModFuncs() {
+					if f.Name() == "init" && f.Pkg == g.Pkg {
+						continue
+					}
+					instrs(f, func(ins ssa.Instruction) {
+						for _, op := range ins.Operands(nil) {
+							if op != nil && *op == ssa.Value(g) {
+								if st, isSt := ins.(*ssa.Store); isSt && st.Addr == ssa.Value(g) {
+									writes++
+								}
+								if u, isU := ins.(*ssa.UnOp); isU && u.Op == token.MUL {
+									for _, r := range referrersOf(u) {
+										if ia, isIa := r.(*ssa.IndexAddr); isIa {
+											for _, r2 := range referrersOf(ia) {
+												if _, isSt := r2.(*ssa.Store); isSt {
+													writes++
+												}
+											}
+										}
+									}
+								}
+							}
+						}
+					})
+				}
+				if writes == 0 {
+					return globalStrings(theProgram, rel, g.Name())
+				}
+			}
+		}
 		return nil, false
 	}
 	idx := map[int64]string{}
